@@ -132,6 +132,9 @@ type group struct {
 type caseRun struct {
 	reqauth   bool
 	noMonitor bool // no overlap monitor: the FileSys touches no memory shared between operations
+	stress    bool // free-running: calls made without an operation context (Stop) get a throw-away one
+	gidMu     sync.Mutex
+	byGid     map[string]*thr // Stop calls the FileSys with CancelledCtxt: its operation is found by goroutine
 	mu       sync.Mutex
 	overlaps []string
 }
@@ -181,8 +184,16 @@ func (g *group) exit() {
 var errFS = errors.New("fs-error")
 
 // fsCall: a gated call of the given kind on the object obj (whose overlap group is g).
-func fsCall(ctx context.Context, kind int, g *group, obj int) (outcome, int, *thr) {
+func fsCall(c *caseRun, ctx context.Context, kind int, g *group, obj int) (outcome, int, *thr) {
 	t, _ := ctx.Value(thrKey{}).(*thr)
+	if t == nil && c.stress {
+		t = &thr{cr: c, open: true}
+	}
+	if t == nil {
+		c.gidMu.Lock()
+		t = c.byGid[goid()]
+		c.gidMu.Unlock()
+	}
 	if t == nil {
 		panic("FileSys call without an operation context")
 	}
@@ -208,7 +219,7 @@ type gfs struct{ c *caseRun }
 func (f *gfs) RequireAuth(ctx context.Context) bool { return f.c.reqauth }
 
 func (f *gfs) Auth(ctx context.Context, uname, aname string) (p9p.AuthFile, error) {
-	o, id, t := fsCall(ctx, 1, nil, 0)
+	o, id, t := fsCall(f.c, ctx, 1, nil, 0)
 	if !o.ok {
 		return nil, errFS
 	}
@@ -216,7 +227,7 @@ func (f *gfs) Auth(ctx context.Context, uname, aname string) (p9p.AuthFile, erro
 }
 
 func (f *gfs) Attach(ctx context.Context, uname, aname string, af p9p.AuthFile) (p9p.Dirent, error) {
-	o, id, t := fsCall(ctx, 2, nil, 0)
+	o, id, t := fsCall(f.c, ctx, 2, nil, 0)
 	if !o.ok {
 		return nil, errFS
 	}
@@ -242,7 +253,7 @@ func (e *gent) Qid() p9p.Qid {
 }
 
 func (e *gent) OpenDir(ctx context.Context) (p9p.ReadNext, error) {
-	o, _, _ := fsCall(ctx, 5, e.grp, e.id)
+	o, _, _ := fsCall(e.c, ctx, 5, e.grp, e.id)
 	if !o.ok {
 		return nil, errFS
 	}
@@ -250,7 +261,7 @@ func (e *gent) OpenDir(ctx context.Context) (p9p.ReadNext, error) {
 }
 
 func (e *gent) Walk(ctx context.Context, names ...string) ([]p9p.Qid, p9p.Dirent, error) {
-	o, id, t := fsCall(ctx, 3, e.grp, e.id)
+	o, id, t := fsCall(e.c, ctx, 3, e.grp, e.id)
 	if !o.ok {
 		return nil, nil, errFS
 	}
@@ -262,7 +273,7 @@ func (e *gent) Walk(ctx context.Context, names ...string) ([]p9p.Qid, p9p.Dirent
 }
 
 func (e *gent) Create(ctx context.Context, name string, perm uint32, mode p9p.Flag) (p9p.Dirent, p9p.File, error) {
-	o, id, t := fsCall(ctx, 6, e.grp, e.id)
+	o, id, t := fsCall(e.c, ctx, 6, e.grp, e.id)
 	if !o.ok {
 		return nil, nil, errFS
 	}
@@ -271,7 +282,7 @@ func (e *gent) Create(ctx context.Context, name string, perm uint32, mode p9p.Fl
 }
 
 func (e *gent) Open(ctx context.Context, mode p9p.Flag) (p9p.File, error) {
-	o, id, t := fsCall(ctx, 4, e.grp, e.id)
+	o, id, t := fsCall(e.c, ctx, 4, e.grp, e.id)
 	if !o.ok {
 		return nil, errFS
 	}
@@ -279,7 +290,7 @@ func (e *gent) Open(ctx context.Context, mode p9p.Flag) (p9p.File, error) {
 }
 
 func simple(ctx context.Context, kind int, e *gent) error {
-	o, _, _ := fsCall(ctx, kind, e.grp, e.id)
+	o, _, _ := fsCall(e.c, ctx, kind, e.grp, e.id)
 	if !o.ok {
 		return errFS
 	}
@@ -300,7 +311,7 @@ type gfile struct {
 }
 
 func (f *gfile) rw(ctx context.Context, kind int) (int, error) {
-	o, _, _ := fsCall(ctx, kind, f.grp, f.id)
+	o, _, _ := fsCall(f.c, ctx, kind, f.grp, f.id)
 	if !o.ok {
 		return 0, errFS
 	}
@@ -381,6 +392,8 @@ func execOp(ctx context.Context, sess p9p.Session, o opDesc) (cls, val int) {
 		err = sess.Clunk(ctx, p9p.Fid(o.a))
 	case "remove":
 		err = sess.Remove(ctx, p9p.Fid(o.a))
+	case "stop":
+		err = sess.Stop(nil)
 	default:
 		panic("unknown op " + o.kind)
 	}
@@ -401,6 +414,12 @@ func start(sess p9p.Session, t *thr) {
 	t.state.Store(stRunning)
 	go func() {
 		t.gid = goid()
+		t.cr.gidMu.Lock()
+		if t.cr.byGid == nil {
+			t.cr.byGid = map[string]*thr{}
+		}
+		t.cr.byGid[t.gid] = t
+		t.cr.gidMu.Unlock()
 		close(t.gidReady)
 		ctx := context.WithValue(context.Background(), thrKey{}, t)
 		defer func() {
@@ -445,10 +464,12 @@ func goroutineStates() map[string]string {
 }
 
 const settleLimit = 5 * time.Minute
+const spinLimit = 30 * time.Second
 
 // settle waits until every started operation is at rest; returns per thread: 'd', 'p' or 'b'.
 func settle(ths []*thr) []byte {
 	res := make([]byte, len(ths))
+	began := time.Now()
 	deadline := time.Now().Add(settleLimit)
 	sleep := 5 * time.Microsecond
 	confirmed := 0
@@ -492,6 +513,17 @@ func settle(ths []*thr) []byte {
 			continue
 		}
 		confirmed = 0
+		if time.Since(began) > spinLimit {
+			// not returned, not inside a FileSys call, not waiting for a mutex, for half a minute of polling
+			// (the work between two rest points takes microseconds): the operation keeps RUNNING - a busy-wait
+			// or livelock.  Reported as its own status; the model has no such state.
+			for _, i := range need {
+				if res[i] != 'b' {
+					res[i] = 's'
+				}
+			}
+			return res
+		}
 		if time.Now().After(deadline) {
 			fmt.Fprintln(os.Stderr, "c14 harness: the session did not come to rest within", settleLimit)
 			os.Exit(3)
@@ -517,6 +549,8 @@ func obsItems(ths []*thr, st []byte) []sx.S {
 			out = append(out, sx.L(sx.Sym("p"), sx.I(int64(t.parkKind)), sx.I(int64(t.parkObj))))
 		case 'b':
 			out = append(out, sx.Sym("b"))
+		case 's':
+			out = append(out, sx.Sym("s"))
 		default:
 			out = append(out, sx.Sym("n"))
 		}
@@ -545,7 +579,16 @@ var focusFid int64 = -1
 // fids currently in the session's table (locked ones twice): where the contention is
 var hotFids []int64
 
+// a case with Stop keeps to three fids: the model tries every order in which Range may visit the table
+var stopCase bool // (kept small: the model tries every callback order of Range)
+
 func pickFid(rng *prng.R) int64 {
+	if stopCase {
+		if rng.Chance(1, 25) {
+			return nofid
+		}
+		return int64(rng.Intn(3))
+	}
 	if focusFid >= 0 && rng.Chance(7, 10) {
 		return focusFid
 	}
@@ -642,7 +685,7 @@ type event struct {
 func stress(rng *prng.R, monitor bool) (ops int, fails []failRec) {
 	const G = 6
 	const perG = 150
-	cr := &caseRun{reqauth: rng.Chance(1, 4), noMonitor: !monitor}
+	cr := &caseRun{reqauth: rng.Chance(1, 4), noMonitor: !monitor, stress: true}
 	sess := p9p.SFileSys(&gfs{cr})
 	type plan struct{ ops []opDesc }
 	plans := make([]plan, G)
@@ -678,10 +721,10 @@ func stress(rng *prng.R, monitor bool) (ops int, fails []failRec) {
 	}
 	var wg sync.WaitGroup
 	var panics atomic.Int32
-	gids := make([]string, G)
-	finished := make([]atomic.Bool, G)
+	gids := make([]string, G+1) // [G]: the goroutine calling Stop
+	finished := make([]atomic.Bool, G+1)
 	var ready sync.WaitGroup
-	ready.Add(G)
+	ready.Add(G + 1)
 	for g := 0; g < G; g++ {
 		wg.Add(1)
 		go func(g int) {
@@ -704,6 +747,26 @@ func stress(rng *prng.R, monitor bool) (ops int, fails []failRec) {
 			}
 		}(g)
 	}
+	// the server's Stop, three times, while the operations run (it waits for whatever is in flight on each fid)
+	wg.Add(1)
+	go func() {
+		defer wg.Done()
+		defer finished[G].Store(true)
+		gids[G] = goid()
+		ready.Done()
+		ready.Wait()
+		for i := 0; i < 3; i++ {
+			time.Sleep(time.Duration(200*(i+1)) * time.Microsecond)
+			func() {
+				defer func() {
+					if x := recover(); x != nil {
+						panics.Add(1)
+					}
+				}()
+				sess.Stop(nil)
+			}()
+		}
+	}()
 	done := make(chan struct{})
 	go func() { wg.Wait(); close(done) }()
 	ready.Wait()
@@ -717,7 +780,7 @@ func stress(rng *prng.R, monitor bool) (ops int, fails []failRec) {
 			// mutex (the FileSys does not park anybody here, so nobody is left who could release one)
 			gs := goroutineStates()
 			stuck, alive := 0, 0
-			for g := 0; g < G; g++ {
+			for g := 0; g <= G; g++ {
 				if !finished[g].Load() {
 					alive++
 					if strings.HasPrefix(gs[gids[g]], "sync.Mutex.Lock") {
@@ -784,6 +847,9 @@ func tableSexp(sess p9p.Session) (sx.S, []p9p.VerifFid) {
 func runCase(rng *prng.R) caseResult {
 	cr := &caseRun{reqauth: rng.Chance(1, 4)}
 	sess := p9p.SFileSys(&gfs{cr})
+	stopCase = rng.Chance(1, 5)
+	defer func() { stopCase = false }()
+	stopAt := -1 // which of the concurrent operations is the server's Stop
 	var ths []*thr
 	var events []event
 	var fails []failRec
@@ -822,12 +888,45 @@ func runCase(rng *prng.R) caseResult {
 			}
 		}
 	}
+	spun := false
+	// an operation found spinning: say so, then open every gate until all have returned, so that it stops
+	noteSpin := func(st []byte) {
+		for i, c := range st {
+			if c == 's' && !spun {
+				spun = true
+				fail("c14.busy-wait:"+ths[i].op.kind, fmt.Sprintf("op %d (%s) neither returns nor waits for a mutex nor is inside a FileSys call: it keeps running while every other operation is at rest (the lock protocol blocks on the SFid's mutex here)", i, ths[i].op.kind))
+			}
+		}
+		if !spun {
+			return
+		}
+		limit := time.Now().Add(time.Minute)
+		for time.Now().Before(limit) {
+			all := true
+			for _, t := range ths {
+				switch t.state.Load() {
+				case stParked:
+					t.state.Store(stRunning)
+					t.gate <- struct{}{}
+					all = false
+				case stDone:
+				default:
+					all = false
+				}
+			}
+			if all {
+				return
+			}
+			time.Sleep(time.Millisecond)
+		}
+	}
 	doStart := func(o opDesc) {
 		t := newThr(o)
 		start(sess, t)
 		st := settle(ths)
 		checkIdle(st, "after starting op "+strconv.Itoa(t.id))
 		events = append(events, event{start: true, t: t.id, obs: st, items: obsItems(ths, st)})
+		noteSpin(st)
 	}
 	doRelease := func(t *thr) {
 		t.state.Store(stRunning)
@@ -835,6 +934,7 @@ func runCase(rng *prng.R) caseResult {
 		st := settle(ths)
 		checkIdle(st, "after releasing op "+strconv.Itoa(t.id))
 		events = append(events, event{start: false, t: t.id, obs: st, items: obsItems(ths, st)})
+		noteSpin(st)
 	}
 	parked := func() []*thr {
 		var p []*thr
@@ -852,7 +952,7 @@ func runCase(rng *prng.R) caseResult {
 	}
 	for i := 0; i < nsetup; i++ {
 		doStart(genSetup(rng, i))
-		for {
+		for !spun {
 			p := parked()
 			if len(p) == 0 {
 				break
@@ -862,6 +962,9 @@ func runCase(rng *prng.R) caseResult {
 	}
 	// concurrent part
 	nconc := rng.Range(2, 6)
+	if stopCase {
+		stopAt = rng.Intn(nconc)
+	}
 	focusFid = -1
 	if rng.Chance(1, 2) {
 		focusFid = int64(rng.Intn(3))
@@ -871,7 +974,7 @@ func runCase(rng *prng.R) caseResult {
 	startedConc := 0
 	// one case in six is a directed race on one fid (the rest of the schedule stays random)
 	var scenario []opDesc
-	if nsetup >= 2 && rng.Chance(1, 6) {
+	if nsetup >= 2 && !stopCase && rng.Chance(1, 6) {
 		okd := outcome{ok: true, n: 3, dir: true}
 		bad := outcome{}
 		switch rng.Intn(3) {
@@ -906,7 +1009,7 @@ func runCase(rng *prng.R) caseResult {
 		}
 	}
 	maxInFlight, sawBlocked := 0, false
-	for steps := 0; steps < 200; steps++ {
+	for steps := 0; steps < 200 && !spun; steps++ {
 		p := parked()
 		canStart := startedConc < nconc
 		if !canStart && len(p) == 0 {
@@ -937,6 +1040,9 @@ func runCase(rng *prng.R) caseResult {
 				o = genOp(rng, errp)
 				if startedConc < len(scenario) && try == 0 {
 					o = scenario[startedConc]
+				}
+				if startedConc == stopAt {
+					o = opDesc{kind: "stop", script: genScript(rng, errp)}
 				}
 				if f := o.newFid(); f < 0 || !pending[f] {
 					break
@@ -1003,13 +1109,20 @@ func runCase(rng *prng.R) caseResult {
 		return b.String()
 	}
 	allDone := true
+	if spun {
+		allDone = false
+		res.Obs = "(spin)"
+	}
 	for i, t := range ths {
+		if spun {
+			break
+		}
 		if final[i] != 'd' {
 			allDone = false
 			fail("c14.never-returns:"+t.op.kind, fmt.Sprintf("every FileSys call has returned, yet op %d (%s) is blocked on a mutex for ever; history: %s", i, t.op.kind, hist()))
 		}
 	}
-	if !allDone {
+	if !allDone && !spun {
 		res.Obs = "(pending)"
 		for _, e := range tab {
 			if e.Locked {
@@ -1035,7 +1148,7 @@ func runCase(rng *prng.R) caseResult {
 			fail("c14.harness:unclassified-error", "unexpected error text from op "+t.op.kind)
 		}
 	}
-	if allDone {
+	if allDone && stopAt < 0 {
 		ok, replays, inconclusive := linearizable(cr.reqauth, ths, events)
 		res.LinReplays, res.LinInconclusive = replays, inconclusive
 		if !ok && !inconclusive {
@@ -1060,6 +1173,9 @@ func runCase(rng *prng.R) caseResult {
 	res.Fails = fails
 	res.Nontrivial = maxInFlight >= 2 || sawBlocked
 	res.Branch = fmt.Sprintf("inflight=%d,blocked=%v", maxInFlight, sawBlocked)
+	if stopAt >= 0 {
+		res.Branch += ",stop"
+	}
 	return res
 }
 
